@@ -31,7 +31,7 @@ const identitiesJSON = `{"identities":[
  {"name":"tester","credentials":[{"accessKey":"` + accessKey + `","secretKey":"` + secretKey + `"}],"actions":["Admin","Read","Write","List","Tagging"]}]}`
 
 func TestMain(m *testing.M) {
-	vlib.Rule("C28: op sequences (3-8 ops) against two buckets of a real master+volume+filer(-maxMB=1)+s3 child-process cluster (keys drawn 2:1 over the buckets, so CopyObject / UploadPartCopy sources and destinations cross buckets; B2: marks the second bucket), every case under its own key prefix: PUT (unsigned, and SigV4 streaming aws-chunked with generated chunk sizes and a configured identity), CopyObject, multipart uploads with 1-6 parts numbered from {1..12,99,100,999,1000,9999,10000} uploaded in random order with re-uploads, parts sent plain / streaming-signed / by UploadPartCopy (whole source or a source range), sizes 0 B..2 MiB incl. the 1 MiB filer chunk border; GET whole and generated ranges (a-b, a-, -n around 0, the end and the part borders); DeleteObject (existing, missing, a name that is only a directory prefix) and DeleteObjects (existing, duplicate, missing and nested names, quiet or not). Reference: a map (bucket,key)->bytes; after every mutating op the touched keys, and at the end all keys (GET whole + ranges) and the key set (one unpaginated ListObjectsV2 per bucket under the case prefix) are compared. Non-trivial = a multipart upload with >=3 parts uploaded out of order, or a batch delete with overlapping (duplicate or nested) names.")
+	vlib.Rule("C28: op sequences (3-8 ops) against two buckets of a real master+volume+filer(-maxMB=1)+s3 child-process cluster (keys drawn 2:1 over the buckets, so CopyObject / UploadPartCopy sources and destinations cross buckets; B2: marks the second bucket), every case under its own key name prefix (depth-1 keys sit in the bucket root): PUT (unsigned, and SigV4 streaming aws-chunked with generated chunk sizes and a configured identity), CopyObject, multipart uploads with 1-6 parts numbered from {1..12,99,100,999,1000,9999,10000} uploaded in random order with re-uploads, parts sent plain / streaming-signed / by UploadPartCopy (whole source or a source range), sizes 0 B..2 MiB incl. the 1 MiB filer chunk border; GET whole and generated ranges (a-b, a-, -n around 0, the end and the part borders); DeleteObject (existing, missing, a name that is only a directory prefix) and DeleteObjects (existing, duplicate, missing and nested names in generated order, root-level and nested keys mixed, every third batch over one base name at three depths n, s/n, s/u/n; quiet or not). Reference: a map (bucket,key)->bytes; after every mutating op the touched keys, and at the end all keys (GET whole + ranges) and the key set (one unpaginated ListObjectsV2 per bucket under the case prefix) are compared. Non-trivial = a multipart upload with >=3 parts uploaded out of order, or a batch delete with overlapping (duplicate or nested) names.")
 	vlib.Assume("keys are ones SeaweedFS can hold (no key is a directory of another, none ends in '/'); CompleteMultipartUpload always names every uploaded part; ETags and metadata are not compared; the unpaginated listing used for the key-set comparison is trusted here (C27 checks listings)")
 	vlib.Main(m)
 }
@@ -104,7 +104,7 @@ func newCasePrefix() string {
 	seqMu.Lock()
 	defer seqMu.Unlock()
 	caseSeq++
-	return fmt.Sprintf("k%dx%d/", vlib.Shard(), caseSeq)
+	return fmt.Sprintf("k%dx%d_", vlib.Shard(), caseSeq) // a name prefix, not a folder: depth-1 keys sit in the bucket root
 }
 
 // ---------------------------------------------------------------- data
@@ -785,9 +785,44 @@ func TestPropRoundTrip(t *testing.T) {
 				if len(m.inBucket(m.keys(), bi)) == 0 && len(m.inBucket(m.keys(), 1-bi)) > 0 {
 					bi = 1 - bi
 				}
+				// every third batch works on one base name at three depths (n, s/n, s/u/n): some of them are
+				// written first, and they are named in a generated order between the other names
+				if rapid.IntRange(0, 2).Draw(t, "batchSameBaseName") == 0 {
+					base := rapid.SampledFrom(simpleNames).Draw(t, "batchBase")
+					top := rapid.SampledFrom([]string{"s", "t"}).Draw(t, "batchTop")
+					for _, rel := range []string{base, top + "/" + base, top + "/u/" + base} {
+						loc := m.root[bi] + rel
+						_, exists := m.objs[loc]
+						if !exists && m.writable(loc) && rapid.IntRange(0, 3).Draw(t, "batchSeedPut") > 0 {
+							bl := blob{rapid.IntRange(1, 40).Draw(t, "batchSeedLen"), rapid.Uint32().Draw(t, "batchSeedData")}
+							data := bl.bytes()
+							trace = append(trace, fmt.Sprintf("PUT %q %s", loc, bl))
+							code, body, err := write(func() (int, []byte, error) { b_, k_ := bk(loc); return cli.put(b_, k_, data) })
+							if err != nil || code != 200 {
+								fail("PUT %q (%d bytes) -> %d %s %v", loc, len(data), code, trimS(string(body), 200), err)
+							}
+							m.set(loc, data)
+							exists = true
+						}
+						if (exists || m.writable(loc)) && rapid.IntRange(0, 3).Draw(t, "batchSeedName") > 0 {
+							names = append(names, loc)
+						}
+					}
+					classes["delete-batch-same-base-name-depths"] = true
+				}
 				bKeys, bDirs := m.inBucket(m.keys(), bi), m.inBucket(m.dirs(), bi)
 				for i := 0; i < n; i++ {
 					switch c := rapid.IntRange(0, 9).Draw(t, "batchWhat"); {
+					case c == 8 && len(bKeys) > 0:
+						// the base name of an existing key, in the bucket root (existing or not)
+						k := rapid.SampledFrom(bKeys).Draw(t, "batchBaseOf")
+						rel := k[m.plen:]
+						loc := m.root[bi] + rel[strings.LastIndex(rel, "/")+1:]
+						if _, exists := m.objs[loc]; exists || m.writable(loc) {
+							names = append(names, loc)
+						} else {
+							names = append(names, drawWritableKeyIn(t, m, bi, "batchMissing"))
+						}
 					case c <= 4 && len(bKeys) > 0:
 						names = append(names, rapid.SampledFrom(bKeys).Draw(t, "batchKey"))
 					case c == 5 && len(names) > 0:
@@ -796,6 +831,12 @@ func TestPropRoundTrip(t *testing.T) {
 						names = append(names, rapid.SampledFrom(bDirs).Draw(t, "batchDir"))
 					default:
 						names = append(names, drawWritableKeyIn(t, m, bi, "batchMissing"))
+					}
+				}
+				names = rapid.Permutation(names).Draw(t, "batchOrder")
+				for i := 1; i < len(names); i++ {
+					if strings.Contains(names[i-1][m.plen:], "/") && !strings.Contains(names[i][m.plen:], "/") {
+						classes["delete-batch-root-key-after-nested-key"] = true
 					}
 				}
 				seen := map[string]bool{}
